@@ -201,8 +201,13 @@ def _mirror(e, env):
     if k == 'neg':
         v = _mirror(e['x'], env)
         return None if v is None else (-v[0], -v[1])
-    if k == 'fn':
-        _mirror(e['x'], env)
+    if k == 'fn':             # keep the argument inside the function's domain (both readers fold constants eagerly)
+        v = _mirror(e['x'], env)
+        if v is None:
+            raise _Bad            # no nested function calls
+        x = float(v[0]) + float(v[1]) * math.pi
+        if (e['f'] == 'ln' and x < 0.05) or (e['f'] == 'sqrt' and x < 0) or (e['f'] == 'tan' and abs(math.cos(x)) < 0.1) or (e['f'] == 'exp' and x > 5):
+            raise _Bad
         return None
     v, u = _mirror(e['x'], env), _mirror(e['y'], env)
     if v is None or u is None:
@@ -245,6 +250,10 @@ def _flat_mirror(P):
 
 def _acceptable(P):
     try:
+        for g in P['gates']:      # closed sub-expressions of a definition are folded when it is read, applied or not
+            for st in g['body']:
+                for e in st['p']:
+                    _mirror(e, [(Fraction(1), Fraction(0))] * g['np'])
         for vals in _flat_mirror(P):
             fl = [float(v[0]) + float(v[1]) * math.pi for v in vals if v is not None]
             for i in range(len(fl)):
@@ -484,7 +493,12 @@ def bq_name(gate):
     try:
         return str(gate.qasm_name)
     except Exception:
-        return type(gate).__name__
+        pass
+    from bqskit.ir.gates.composed.controlled import ControlledGate
+    if isinstance(gate, ControlledGate):      # decoded `c3sqrtx`: a controlled gate the encoder has no spelling for
+        n = gate.num_controls
+        return ('c' * n if n <= 2 else 'c%d' % n) + bq_name(gate.gate)
+    return type(gate).__name__
 
 
 def flat_bq(circ, loc=None, out=None):
@@ -556,7 +570,10 @@ def observe_qk(src):
         qc = q2.loads(src, custom_instructions=q2.LEGACY_CUSTOM_INSTRUCTIONS)
         return {'status': 'ok', 'err': '', 'nq': int(qc.num_qubits), 'ops': flat_qk(qc, list(range(qc.num_qubits)), [])}
     except Exception as e:
-        return {'status': 'crash', 'err': type(e).__name__ + ':' + str(e)[:120].replace('"', "'").replace('\\', '/').replace('\n', ' '), 'nq': 0, 'ops': []}
+        import re
+        msg = re.sub(r'<input>:\d+,\d+: ', '', str(e)[:160])
+        msg = re.sub(r'circuitgate_\d+', 'circuitgate_N', msg)
+        return {'status': 'crash', 'err': type(e).__name__ + ':' + re.sub(r'[^A-Za-z0-9_ :.,()-]', '', msg), 'nq': 0, 'ops': []}
 
 
 SKIPPED = {'status': 'skipped', 'err': '', 'nq': 0, 'ops': []}
@@ -776,7 +793,7 @@ def rtu_ops(rng, n, nops):
 def enumerate_with_tlc(ctx, out):
     """The model-checking pass: TLC enumerates the program families of QasmGen, checks the invariants and prints the trees."""
     cfg = os.path.join(SPECDIR, 'QasmGen.cfg' if ctx.quick else 'QasmGen_thorough.cfg')
-    r = common.tlc(GEN, cfg, coverage=True, scratch=ctx.scratch, workers=4, timeout=1500, heap='6g')
+    r = common.tlc(GEN, cfg, coverage=True, scratch=ctx.scratch, workers=8, timeout=1500, heap='6g')
     if not r.ok:
         raise MachineryError('TLC failed on QasmGen.tla (an invariant of the specification itself is violated, or TLC crashed): ' + (r.error or r.out[-1500:]))
     progs = {}
@@ -785,20 +802,18 @@ def enumerate_with_tlc(ctx, out):
             progs.setdefault(p[2], p[1])
     if not progs:
         raise MachineryError('QasmGen.tla printed no programs')
-    if r.coverage.get('AddStmt', 0) == 0 or r.coverage.get('Init', 1) == 0:
-        raise MachineryError('QasmGen.tla: action AddStmt has zero coverage (vacuous model): %s' % r.coverage)
+    if r.coverage.get('AddStmt', 0) == 0 or r.coverage.get('Expand', 0) == 0:
+        raise MachineryError('QasmGen.tla: an action has zero coverage (vacuous model): %s' % r.coverage)
     items = [(json.loads(k), fam) for k, fam in sorted(progs.items())]
     out['gen'] = {'states': r.distinct, 'transitions': r.states, 'depth': r.depth, 'coverage': r.coverage, 'wall_s': round(r.wall, 1),
                   'programs': len(items), 'by_family': {f: sum(1 for _, x in items if x == f) for f in sorted({x for _, x in items})}}
     return items, r
 
 
-def pool_map(fn_, jobs, nproc):
-    if len(jobs) < 8 or nproc <= 1:
+def pool_map(pool, fn_, jobs):
+    if pool is None or len(jobs) < 8:
         return [fn_(j) for j in jobs]
-    import multiprocessing as mp
-    with mp.get_context('fork').Pool(nproc) as pool:
-        return pool.map(fn_, jobs, chunksize=max(1, len(jobs) // (nproc * 8)))
+    return pool.map(fn_, jobs, chunksize=max(1, len(jobs) // 128))
 
 
 def strip_for_tlc(case):
@@ -810,14 +825,35 @@ def strip_for_tlc(case):
 def key_of(case, clause, extra):
     who, what, feature, gate = (list(extra) + ['', '', '', ''])[:4]
     k = {'clause': clause, 'who': who, 'what': what, 'feature': feature, 'gate': gate}
+    if clause in ('function-call-fails', 'rejected-valid-program'):
+        # TLC reports the functions the program calls in the 4th slot ("exp+sqrt+"); one boolean per function so that a
+        # known-finding entry can say "a program that calls exp is refused with a parse error" whatever else it calls
+        fns = [f for f in gate.split('+') if f]
+        k['gate'] = ''
+        k['functions'] = '+'.join(fns)
+        for f in FUNCS:
+            k['uses_' + f] = f in fns
     return k
 
 
+CHUNK = 3500
+
+
 def validate(cases, ctx, stats):
-    verdicts, st, tr, _ = common.batch_validate(CHECK, CHECK_CFG, [strip_for_tlc(c) for c in cases], ctx.scratch, chunk=2500, workers=8, timeout=1500)
+    """Batch validation.  TLC wraps tuples longer than 80 columns over several lines (`<< "VERDICT",` ...), which
+    common.parse_prints does not see, so the VERDICT tuples are read again from the raw output of every chunk."""
+    import re
+    _v, st, tr, results = common.batch_validate(CHECK, CHECK_CFG, [strip_for_tlc(c) for c in cases], ctx.scratch, chunk=CHUNK, workers=8, timeout=1500)
     stats['states'] += st
     stats['transitions'] += tr
-    return verdicts
+    verdicts = set()
+    for ci, r in enumerate(results):
+        for m in re.finditer(r'<<\s*"VERDICT"', r.out):
+            v, _ = common._parse_tla_value(r.out, m.start())
+            verdicts.add((ci * CHUNK + v[1] - 1, v[2], v[3], tuple(v[4:])))
+    for idx, step, clause, extra in _v:
+        verdicts.add((idx, step, clause, tuple(extra)))
+    return sorted(verdicts)
 
 
 def detail_of(case, clause, extra):
@@ -844,6 +880,14 @@ def run(ctx: Ctx) -> Outcome:
     out = Outcome('C17')
     stats = {'states': 0, 'transitions': 0}
     info = {}
+    import time
+    tm = {}
+    t0 = time.time()
+
+    def lap(name):
+        nonlocal t0
+        tm[name] = round(time.time() - t0, 1)
+        t0 = time.time()
     nproc = min(16, os.cpu_count() or 1)
     rng = random.Random(ctx.seed * 7919 + 17)
     lib = rt_library()
@@ -859,53 +903,75 @@ def run(ctx: Ctx) -> Outcome:
             cases = [rtu_case((rp['ops'], len(rp['r']), 'replay'))]
         all_cases = cases
         verdicts = validate(cases, ctx, stats)
-        gen_r = None
     else:
-        # ---- 1. model-checking pass: the specification generates the programs
-        items, gen_r = enumerate_with_tlc(ctx, info)
-        stats['states'] += gen_r.distinct
-        stats['transitions'] += gen_r.states
-        jobs = [(P, True, 'tlc:' + fam) for P, fam in items]
-        # ---- 2. seeded random programs
-        g = Gen(rng, not ctx.quick)
-        nrand = 1500 if ctx.quick else 20000
-        for i in range(nrand):
-            jobs.append((g.good_program(), rng.random() < 0.6, 'random'))
-        # hand-picked one-liners for the function calls (their value is not decided, only that they are applied)
-        for f in FUNCS:
-            jobs.append(({'qregs': [{'n': 'q', 's': 1}], 'cregs': [], 'gates': [],
-                          'stmts': [app('rz', [fn(f, num(2))], [arg('q', 0)])]}, True, 'function'))
-        decode_cases = pool_map(decode_case, jobs, nproc)
-        # ---- 3. round trip, phase 1: every spelling alone (several parameter draws and qubit orders)
-        single_jobs = []
-        for name in sorted(lib):
-            k, w = arity[name]
-            for rep in range(3 if ctx.quick else 8):
-                n = w + rng.randint(0, 2)
-                P = {'qregs': [{'n': 'q', 's': n}], 'cregs': [], 'gates': [],
-                     'stmts': [app(name, [rt_value(rng) for _ in range(k)], [arg('q', i) for i in rng.sample(range(n), w)]) for _ in range(1 + rep % 2)]}
-                single_jobs.append((P, name, 'rt-single'))
-        single_cases = pool_map(rt_case, single_jobs, nproc)
-        cases = decode_cases + single_cases
-        verdicts = validate(cases, ctx, stats)
-        unreadable = set()
-        for idx, _s, clause, extra in verdicts:
-            c = cases[idx]
-            if c['kind'] == 'rt' and c['origin'] == 'rt-single' and extra and extra[0] == 'bqskit':
-                unreadable.add(c['suspect'])
-        info['rt_gates_failing_alone'] = sorted(unreadable)
-        # ---- 4. round trip, phase 2: mixed circuits over the spellings that survive alone, nested CircuitGates; exact domain
-        names = [k for k in sorted(lib) if k not in unreadable]
-        mixed_jobs = []
-        for i in range(400 if ctx.quick else 6000):
-            n = rng.randint(1, 5)
-            qk_only = rng.random() < 0.6
-            pool = [k for k in names if (k in QK or not qk_only)]
-            mixed_jobs.append((rt_program(rng, pool, arity, n, rng.randint(1, 8), rng.choice([0, 0, 1, 2, 2])), 'mixed', 'rt-mixed'))
-        rtu_jobs = [(rtu_ops(rng, n, rng.randint(1, 10)), n, 'rt-exact') for n in [rng.randint(1, 4) for _ in range(300 if ctx.quick else 4000)]]
-        cases2 = pool_map(rt_case, mixed_jobs, nproc) + pool_map(rtu_case, rtu_jobs, nproc)
+        import multiprocessing as mp
+        import threading
+        pool = mp.get_context('fork').Pool(nproc)          # forked before any thread exists
+        try:
+            # ---- 1. model-checking pass (background): the specification generates the programs
+            box = {}
+
+            def enum():
+                try:
+                    box['items'], box['r'] = enumerate_with_tlc(ctx, info)
+                except BaseException as e:       # re-raised in the main thread
+                    box['error'] = e
+            th = threading.Thread(target=enum)
+            th.start()
+            # ---- 2. seeded random programs
+            g = Gen(rng, not ctx.quick)
+            jobs = [(g.good_program(), rng.random() < 0.6, 'random') for _ in range(1500 if ctx.quick else 20000)]
+            # hand-picked one-liners for the function calls (their value is not decided, only that they are applied)
+            for f in FUNCS:
+                jobs.append(({'qregs': [{'n': 'q', 's': 1}], 'cregs': [], 'gates': [],
+                              'stmts': [app('rz', [fn(f, num(2))], [arg('q', 0)])]}, True, 'function'))
+            lap('random_generation')
+            random_cases = pool_map(pool, decode_case, jobs)
+            # ---- 3. round trip, phase 1: every spelling alone (several parameter draws and qubit orders)
+            single_jobs = []
+            for name in sorted(lib):
+                k, w = arity[name]
+                for rep in range(3 if ctx.quick else 8):
+                    n = w + rng.randint(0, 2)
+                    P = {'qregs': [{'n': 'q', 's': n}], 'cregs': [], 'gates': [],
+                         'stmts': [app(name, [rt_value(rng) for _ in range(k)], [arg('q', i) for i in rng.sample(range(n), w)]) for _ in range(1 + rep % 2)]}
+                    single_jobs.append((P, name, 'rt-single'))
+            single_cases = pool_map(pool, rt_case, single_jobs)
+            lap('observe_random_and_rt_singles')
+            cases = random_cases + single_cases
+            verdicts = validate(cases, ctx, stats)
+            lap('tlc_validate_1')
+            unreadable = set()
+            for idx, _s, clause, extra in verdicts:
+                c = cases[idx]
+                if c['kind'] == 'rt' and c['origin'] == 'rt-single' and extra and extra[0] == 'bqskit':
+                    unreadable.add(c['suspect'])
+            info['rt_gates_failing_alone'] = sorted(unreadable)
+            # ---- 4. round trip, phase 2: mixed circuits over the spellings that survive alone, nested CircuitGates; exact domain
+            names = [k for k in sorted(lib) if k not in unreadable]
+            mixed_jobs = []
+            for i in range(400 if ctx.quick else 6000):
+                n = rng.randint(1, 5)
+                qk_only = rng.random() < 0.6
+                names_i = [k for k in names if (k in QK or not qk_only)]
+                mixed_jobs.append((rt_program(rng, names_i, arity, n, rng.randint(1, 8), rng.choice([0, 0, 1, 2, 2])), 'mixed', 'rt-mixed'))
+            rtu_jobs = [(rtu_ops(rng, n, rng.randint(1, 10)), n, 'rt-exact') for n in [rng.randint(1, 4) for _ in range(300 if ctx.quick else 4000)]]
+            cases2 = pool_map(pool, rt_case, mixed_jobs) + pool_map(pool, rtu_case, rtu_jobs)
+            lap('observe_rt_mixed')
+            # ---- 5. the programs TLC enumerated, run on the implementation
+            th.join()
+            if 'error' in box:
+                raise box['error']
+            stats['states'] += box['r'].distinct
+            stats['transitions'] += box['r'].states
+            lap('wait_for_tlc_enumeration')
+            cases2 += pool_map(pool, decode_case, [(P, True, 'tlc:' + fam) for P, fam in box['items']])
+            lap('observe_tlc_programs')
+        finally:
+            pool.terminate()
         v2 = validate(cases2, ctx, stats)
-        verdicts = list(verdicts) + [(idx + len(cases), s, cl, ex) for idx, s, cl, ex in v2]
+        lap('tlc_validate_2')
+        verdicts = list(verdicts) + [(idx + len(cases), s_, cl, ex) for idx, s_, cl, ex in v2]
         all_cases = cases + cases2
 
     # ---- verdicts -> violations (no verdict is computed here)
@@ -927,7 +993,7 @@ def run(ctx: Ctx) -> Outcome:
                   'ops': c.get('ops'), 'r': c.get('r'), 'origin': c.get('origin')}
         out.violations.append(Violation('C17', clause, key_of(c, clause, extra), detail_of(c, clause, extra), replay))
     if spec_bugs:
-        raise MachineryError('%d case(s) where the specification/generator (not BQSKit) is at fault; first:\n%s' % (len(spec_bugs), spec_bugs[0]))
+        raise MachineryError('%d case(s) where the specification/generator (not BQSKit) is at fault; first ones:\n%s' % (len(spec_bugs), '\n=====\n'.join(spec_bugs[:6])))
 
     if undecided:     # exact-domain circuits that are not what Monomial.tla says BEFORE the round trip are not C17's to judge
         out.notes.append('UNDECIDED property=C17 exact-domain cases skipped (circuit differs from specs/exact/Monomial.tla before the round trip): %d' % undecided)
@@ -963,7 +1029,7 @@ def run(ctx: Ctx) -> Outcome:
                 'seeded random.  Non-trivial = has at least one gate application, measurement or reset; distinct by content hash of the tree',
         'exhaustive': False,
         'exhaustive_part': 'QasmGen.tla families expr/bind/struct (every state run on the implementation)',
-        'model_checking_pass': info.get('gen', {}),
+        'model_checking_pass': info.get('gen', {}), 'timings_s': tm,
         'by_origin': by_origin, 'programs_by_feature': feats,
         'qiskit_validated_programs': qk_validated, 'qiskit_skipped_programs_with_non_qelib_gates': qk_skipped,
         'broadcast_programs_declined_by_bqskit_with_LangException': bq_rejected_broadcast,
